@@ -197,7 +197,12 @@ func sweep(c *Ctx, layers []sweepLayer, perCase func(sc *sweepCase) bool, each f
 				fl.Apply()
 				out, ok, pv := redactLine(sc.Line)
 				c.Eval(1)
-				each(sc, fl, out, ok, pv)
+				if each != nil {
+					each(sc, fl, out, ok, pv)
+				}
+				if L.O.Spellings && pv == nil {
+					spellingInvariance(c, sc, fl, out, ok)
+				}
 			}
 		})
 		c.Count("choice_points_"+L.Name, st.ChoicePoints)
@@ -205,6 +210,40 @@ func sweep(c *Ctx, layers []sweepLayer, perCase func(sc *sweepCase) bool, each f
 		c.Count("max:deviations_"+L.Name, int64(st.MaxDev))
 	}
 	Flags{}.Apply()
+}
+
+// jsonSpellings: the other ways the same line can be written (RFC 8259 leaves them to the writer): 1 = '/' and non-ASCII
+// characters as \u escapes (surrogate pairs), 2 = EVERY character of every key and string as a \u escape, 3 = white space
+// around every token, 4 = upper-case hex digits and escapes of a few ASCII letters and '$'
+var jsonSpellings = []string{"", "non-ASCII and slash escaped", "every character escaped", "white space between tokens", "upper-case hex escapes of some ASCII"}
+
+// spellingInvariance: the tool parses and re-serialises, so what it emits must not depend on how the input spelled the
+// same JSON text.  Anything that looks at the raw bytes of a line (a pre-filter, a fast path, a substring test) does.
+func spellingInvariance(c *Ctx, sc *sweepCase, fl Flags, out string, ok bool) {
+	for st := 1; st < len(jsonSpellings); st++ {
+		alt := sc.C.Root.JSONStyle(st)
+		if alt == sc.Line {
+			continue
+		}
+		o2, ok2, pv2 := redactLine(alt)
+		c.Eval(1)
+		if pv2 != nil {
+			c.Count("skipped_panics", 1)
+			continue
+		}
+		if ok2 == ok && o2 == out {
+			continue
+		}
+		line, style := sc.Line, st
+		c.Violate(fmt.Sprintf("spelling:output-depends-on-how-the-line-is-written:%d", st), fmt.Sprintf("the same line written with %s gives a different result under flags [%s]; slot %s; canonical input: %s | other spelling: %s | output: %s | output for the other spelling: %s", jsonSpellings[st], fl, sc.C.SlotName, trunc(line, 300), trunc(alt, 300), trunc(out, 300), trunc(o2, 300)),
+			int64(len(line)), replayOf(sc, fl, map[string]any{"other_spelling": alt, "output": out, "output_other": o2}),
+			func() bool {
+				fl.Apply()
+				a, oka, _ := redactLine(line)
+				b, okb, _ := redactLine(sc.C.Root.JSONStyle(style))
+				return a != b || oka != okb
+			})
+	}
 }
 
 func numEqual(a, b string) bool {
